@@ -40,6 +40,10 @@ func cholesky_float64(A *DenseFloat64Matrix, L *DenseFloat64Matrix, s, t Float64
         L.AT(i, j).DIV(t, L.AT(j, j))
       }
     }
+    // L might be a recycled matrix, clear upper triangular part
+    for j := i+1; j < n; j++ {
+      L.AT(i, j).SetFloat64(0.0)
+    }
   }
   return L, nil, nil
 }
@@ -60,6 +64,10 @@ func cholesky_ldl_float64(A *DenseFloat64Matrix, L, D *DenseFloat64Matrix, s, t 
       return nil, nil, fmt.Errorf("matrix is not positive definite")
     }
     L.AT(j,j).SetFloat64(1.0)
+    // L might be a recycled matrix, clear upper triangular part
+    for k := j+1; k < n; k++ {
+      L.AT(j,k).SetFloat64(0.0)
+    }
     // compute remaining entries
     for i := j+1; i < n; i++ {
       s.Reset()
@@ -102,6 +110,10 @@ func cholesky_ldl_forcepd_float64(A *DenseFloat64Matrix, L, D *DenseFloat64Matri
   // loop over columns
   for j := 0; j < n; j++ {
     L.AT(j,j).SetFloat64(1.0)
+    // L might be a recycled matrix, clear upper triangular part
+    for k := j+1; k < n; k++ {
+      L.AT(j,k).SetFloat64(0.0)
+    }
     // compute c_jj (stored temporarily in d_j)
     s.Reset()
     for k := 0; k < j; k++ {
